@@ -60,11 +60,16 @@ P("C03", [f"{RQ}:_comes_before", f"{RQ}:_contains", f"{RQ}:arg_prune_partition",
   unverified=[
               "BaseRangeQuery2D.get/to_array/to_sparse_matrix/to_frame", "RangeSelector2D.__getitem__/fetch"])
 
-P("C04", [f"{RQ}:_region_to_extent", f"{UT}:parse_region", f"{UT}:get_binsize"], "bounded/C04.py",
+P("C04", [f"{RQ}:_region_to_extent", f"{RQ}:region_to_extent", f"{RQ}:region_to_offset", "cooler.api:Cooler.extent",
+           "cooler.api:Cooler.offset", f"{UT}:parse_region", f"{UT}:get_binsize"], "bounded/C04.py",
   "Proof of the extent arithmetic for all bin tables, chromosomes and ranges (fixed path relative to the C20 "
-  "'fixed' predicate, variable path over the searchsorted contract) and of parse_region's defaults/bounds/refusals.",
-  note="FDIV64 (float floor/ceil of integer quotients); parse_region_string assumed in the prover (C19 bounded).",
-  unverified=["Cooler.extent/offset and the _fetch closures", "GenomeSegmentation.fetch / bedslice"])
+  "'fixed' predicate, variable path over the searchsorted contract), of parse_region's defaults/bounds/refusals, and "
+  "of the public wrappers region_to_extent / region_to_offset / Cooler.extent / Cooler.offset, each checked against "
+  "its callee's contract (modular), under the representation invariant of a Cooler object for the chromosome named.",
+  note="FDIV64 (float floor/ceil of integer quotients); parse_region_string assumed in the prover (C19 bounded); "
+       "Cooler invariant (cached ids/lengths agree with the stored table, recorded bin size truthful) is a precondition.",
+  unverified=["the _fetch closures of Cooler.bins()/pixels()/matrix() (same three calls as Cooler.extent)",
+              "GenomeSegmentation.fetch / bedslice"])
 
 P("C05", [f"{ING}:_sanitize_pixels", f"{UT}:get_binsize"], "bounded/C05.py",
   "Proof core: the pre-binned-record sanitizer is verified per record for all chunks: one-based shift by exactly one, "
